@@ -160,6 +160,7 @@ func runC18(c *Ctx, r *Run) {
 	r.Rule("SYNC-2", "no lost worker: a worker-side blocking send on the per-call notification channel is covered by the channel's capacity expression (unbuffered + counter-gated receives is the lost-wakeup shape)")
 	r.Rule("SYNC-3", "exactly one task call, slot write, decrement and notification per unit of work on every path; slot index is the task argument (Parallelize) resp. the decrement result guarded >= 0 with a non-nil result (Search); indices issued 0..count-1 exactly once (increment only in the send case)")
 	r.Rule("SYNC-4", "nil pool: receiver tested for nil before any field access; the nil branch delegates to a sequential function free of channel/atomic/go operations that fills one slot per index (search: loops until non-nil)")
+	r.Rule("SYNC-6", "a search worker reads the shared counter between any two candidate evaluations (it leaves a finished search after at most one more candidate)")
 	r.Rule("SYNC-5", "caller discipline: no Parallelize/Search/NewPool reachable from a closure handed to Parallelize/Search; the only go statement of library code is the worker start in NewPool")
 
 	pk := c.PkgRel("pkg/pool")
@@ -486,6 +487,7 @@ func runC18(c *Ctx, r *Run) {
 	r.Require("SYNC-3", 8)
 	r.Require("SYNC-4", 4)
 	r.Require("SYNC-5", 10)
+	r.Require("SYNC-6", 1)
 }
 
 func isLenOf(v ssa.Value, s ssa.Value) bool {
@@ -911,8 +913,8 @@ func (m *poolModel) analyseMode(callerFn *ssa.Function, mode bool, kind string, 
 						r.Check("SYNC-3", keyp+"|"+u.fn.Name()+"|slot-index-nonnegative", c.Pos(w.Pos()), guarded,
 							"over-producing workers (decrement result < 0) do not write", "the slot write is not guarded by `index >= 0`: an over-producing worker indexes results[-1] and panics")
 					}
-					tc, _ := resolveLoad(w.Val).(*ssa.Call)
-					nonNil := tc != nil && m.isTaskCall(tc) != nil && dominatedByNonNil(w.Block(), tc)
+					val := resolveLoad(w.Val)
+					nonNil := m.taskValued(val, 0) && dominatedByNonNil(w.Block(), val)
 					r.Check("SYNC-3", keyp+"|"+u.fn.Name()+"|slot-value-nonnil", c.Pos(w.Pos()), nonNil,
 						"only non-nil task results are stored (Search returns non-nil results)", "stored value "+path(w.Val)+" is not a task result known to be non-nil on this path")
 				}
@@ -940,13 +942,93 @@ func (m *poolModel) analyseMode(callerFn *ssa.Function, mode bool, kind string, 
 						return false
 					}, nil)
 					ok := tc != nil && dominatedByNonNil(in.Block(), tc)
+					if tc != nil && !ok {
+						// the result is carried by a variable that is retried until non-nil: test the phi it feeds
+						for _, ref := range *tc.Referrers() {
+							if phi, isPhi := ref.(*ssa.Phi); isPhi && m.taskValued(phi, 0) && dominatedByNonNil(in.Block(), phi) {
+								ok = true
+							}
+						}
+					}
 					r.Check("SYNC-3", keyp+"|"+u.fn.Name()+"|decrement-only-on-success", c.Pos(in.Pos()), ok,
 						"the counter is decremented only for a non-nil result", "a decrement is reachable with a nil task result: the caller is released with fewer results than requested")
 				}
 			}
 		}
 	}
+	if mode {
+		// SYNC-6: the quota is looked at before every candidate: no cycle through the task call avoids the counter read
+		for _, u := range units {
+			var loads, tasks []*ssa.BasicBlock
+			for _, b := range u.fn.Blocks {
+				if !inUnit(u, b) {
+					continue
+				}
+				for _, in := range b.Instrs {
+					if isAtomicLoad(in) {
+						loads = append(loads, b)
+					}
+					if m.isTaskCall(in) != nil {
+						tasks = append(tasks, b)
+					}
+				}
+			}
+			for i, tb := range tasks {
+				avoid := map[*ssa.BasicBlock]bool{}
+				for _, l := range loads {
+					avoid[l] = true
+				}
+				cyc := !avoid[tb] && cycleAvoiding(tb, avoid)
+				r.Check("SYNC-6", fmt.Sprintf("%s|%s|task call #%d|quota-read-per-candidate", keyp, u.fn.Name(), i+1), c.Pos(tb.Instrs[0].Pos()), !cyc && len(loads) > 0,
+					"between two candidate evaluations the worker reads the shared counter",
+					"the worker can evaluate candidate after candidate without reading the shared counter in between (a retry loop around the task call): once the other workers have satisfied the search it keeps working on the finished search until its own next success, and is not available to the next command — with no further success it is lost for good and the next Search or Parallelize on the pool blocks")
+			}
+		}
+	}
 	_ = nSend
+}
+
+func (m *poolModel) taskValued(v ssa.Value, d int) bool {
+	if d > 4 {
+		return false
+	}
+	switch x := v.(type) {
+	case *ssa.Call:
+		return m.isTaskCall(x) != nil
+	case *ssa.Phi:
+		for _, e := range x.Edges {
+			if isNilConst(e) {
+				continue // the initial value of a retry variable; excluded by the non-nil test that must dominate the use
+			}
+			if e != ssa.Value(x) && !m.taskValued(e, d+1) {
+				return false
+			}
+		}
+		return true
+	}
+	return false
+}
+
+// cycleAvoiding: some path leads from b back to b without entering a block of avoid.
+func cycleAvoiding(b *ssa.BasicBlock, avoid map[*ssa.BasicBlock]bool) bool {
+	seen := map[*ssa.BasicBlock]bool{}
+	var walk func(x *ssa.BasicBlock) bool
+	walk = func(x *ssa.BasicBlock) bool {
+		for _, s := range x.Succs {
+			if s == b {
+				return true
+			}
+			if seen[s] || avoid[s] {
+				continue
+			}
+			seen[s] = true
+			if walk(s) {
+				return true
+			}
+		}
+		return false
+	}
+	return walk(b)
 }
 
 // dominatedByCmp: block b is dominated by the true edge of `v op k` (or the false edge of its negation).
